@@ -162,7 +162,78 @@ def m_re_split(pattern, s):
     parts.append(SStr(cur))
     return parts
 
+def _re_match(nodes, s, pos, k):
+    """backtracking matcher over parsed sre nodes; k(pos) is the continuation; every character test is a decision"""
+    if not nodes: return k(pos)
+    (op, av) = nodes[0]; rest = nodes[1:]
+    if op == sre_c.LITERAL:
+        return pos < len(s.cs) and CTX.decide(s.cs[pos] == av) and _re_match(rest, s, pos + 1, k)
+    if op == sre_c.NOT_LITERAL:
+        return pos < len(s.cs) and CTX.decide(s.cs[pos] != av) and _re_match(rest, s, pos + 1, k)
+    if op == sre_c.ANY:
+        return pos < len(s.cs) and CTX.decide(s.cs[pos] != 10) and _re_match(rest, s, pos + 1, k)
+    if op == sre_c.IN:
+        items = list(av); neg = False
+        if items and items[0][0] == sre_c.NEGATE: neg = True; items = items[1:]
+        if pos >= len(s.cs): return False
+        hit = CTX.decide(class_pred(items)(s.cs[pos]))
+        return (hit != neg) and _re_match(rest, s, pos + 1, k)
+    if op == sre_c.AT:
+        if av in (sre_c.AT_BEGINNING, sre_c.AT_BEGINNING_STRING): return pos == 0 and _re_match(rest, s, pos, k)
+        if av in (sre_c.AT_END_STRING,): return pos == len(s.cs) and _re_match(rest, s, pos, k)
+        if av == sre_c.AT_END:
+            return (pos == len(s.cs) or (pos == len(s.cs) - 1 and CTX.decide(s.cs[pos] == 10))) and _re_match(rest, s, pos, k)
+        raise Unsupported(f"regex anchor {av}")
+    if op == sre_c.BRANCH:
+        for alt in av[1]:
+            if _re_match(list(alt) + rest, s, pos, k): return True
+        return False
+    if op == sre_c.SUBPATTERN:
+        return _re_match(list(av[3]) + rest, s, pos, k)
+    if op in (sre_c.MAX_REPEAT, sre_c.MIN_REPEAT):
+        (lo, hi, sub) = av; sub = list(sub)
+        def rep(p, n):
+            if n >= lo and _re_match(rest, s, p, k): return True
+            if n < hi and n < len(s.cs) + 1:
+                return _re_match(sub, s, p, lambda q: q > p and rep(q, n + 1))
+            return False
+        return rep(pos, 0)
+    raise Unsupported(f"regex op {op}")
+def m_re_search(pattern, s, anchored=False, full=False):
+    """bool(re.search / match / fullmatch) for a concrete pattern within the supported regex subset"""
+    if isinstance(pattern, RePattern): pattern = pattern.pat
+    if not isinstance(pattern, str): raise Unsupported("symbolic pattern")
+    nodes = list(sre_parse.parse(pattern)); s = lift(s)
+    end = (lambda q: q == len(s.cs)) if full else (lambda q: True)
+    starts = [0] if anchored else range(len(s.cs) + 1)
+    for st in starts:
+        if _re_match(nodes, s, st, end): return True
+    return None
 # ---------------- the interpreter
+class AssocDict:
+    """a dict whose keys may be symbolic strings: lookup decides key equality entry by entry"""
+    def __init__(self): self.items = []
+    def lookup(self, k):
+        for (k2, v) in self.items:
+            if _key_eq(k, k2): return True, v
+        return False, None
+    def store(self, k, v):
+        for i, (k2, _) in enumerate(self.items):
+            if _key_eq(k, k2):
+                self.items[i] = (k2, v); return
+        self.items.append((k, v))
+def _key_eq(a, b):
+    if isinstance(a, (SStr, str)) and isinstance(b, (SStr, str)):
+        r = seq_eq(a, b)
+        return truth(r) if not isinstance(r, bool) else r
+    return a == b
+def _isinstance(x, ty):
+    if ty is str: return isinstance(x, (str, SStr))
+    return isinstance(x, ty)
+class RePattern:
+    def __init__(self, pat):
+        if not isinstance(pat, str): raise Unsupported("symbolic regex")
+        self.pat = pat
 class Closure:
     def __init__(self, node, env, is_gen): self.node, self.env, self.is_gen = node, env, is_gen
 class Opaque:
@@ -181,13 +252,32 @@ class Interp:
         self.genv.update(all=lambda it: all(truth(x) for x in it), enumerate=enumerate, tuple=tuple, iter=iter,
                          next=self.b_next, map=lambda f, it: [self.call(f, [x]) for x in it], ValueError=ValueError,
                          StopIteration=StopIteration)
-        self.genv['re'] = {'split': m_re_split}
+        self.genv['re'] = {'split': m_re_split, 'compile': lambda pat, *a: RePattern(pat), 'search': lambda pat, s: m_re_search(pat, s),
+                           'match': lambda pat, s: m_re_search(pat, s, anchored=True),
+                           'fullmatch': lambda pat, s: m_re_search(pat, s, anchored=True, full=True)}
         self.genv['itertools'] = {'chain': {'from_iterable': lambda its: [x for it in its for x in it]}}
+        self.genv.update(KeyError=KeyError, len=lambda x: len(x), isinstance=_isinstance, str=str, any=lambda it: any(truth(x) for x in it))
+        self.state_stmts = []
         for st in self.mod.body:
             if isinstance(st, ast.FunctionDef) and st.name in ('_pairwise', '_split_field_name', 'rename_field'):
                 self.genv[st.name] = Closure(st, self.genv, self.is_generator(st))
             if isinstance(st, ast.AnnAssign) and isinstance(st.target, ast.Name) and st.target.id == '_CONVERT_FNS':
                 self.genv['_CONVERT_FNS'] = self.ev(st.value, self.genv)
+            elif isinstance(st, (ast.Assign, ast.AnnAssign)) and st.value is not None:
+                # other module-level state the kernel may use (caches, precompiled patterns): evaluated if within the subset,
+                # re-evaluated at the start of every path (reset_state) so that no state leaks between paths
+                tg = st.target if isinstance(st, ast.AnnAssign) else (st.targets[0] if len(st.targets) == 1 else None)
+                if isinstance(tg, ast.Name) and not tg.id.isupper() or (isinstance(tg, ast.Name) and tg.id.startswith('_') and tg.id != '_MISSING'):
+                    try:
+                        self.genv[tg.id] = self.ev(st.value, self.genv)
+                        self.state_stmts.append((tg.id, st.value))
+                    except Unsupported:
+                        pass
+                    except Exception:
+                        pass
+    def reset_state(self):
+        for (name, value) in self.state_stmts:
+            self.genv[name] = self.ev(value, self.genv)
     def is_generator(self, fn):
         for st in fn.body:
             if isinstance(st, (ast.FunctionDef, ast.Lambda)): continue
@@ -247,6 +337,7 @@ class Interp:
                 try: self.block(st.body, env)
                 except _Break: break
         elif isinstance(st, ast.Break): raise _Break()
+        elif isinstance(st, ast.Pass): pass
         elif isinstance(st, ast.Try):
             try: self.block(st.body, env)
             except PyRaise as pr:
@@ -259,6 +350,10 @@ class Interp:
         else: raise Unsupported(f"stmt {type(st).__name__} line {st.lineno}")
     def assign(self, tg, v, env):
         if isinstance(tg, ast.Name): env[tg.id] = v
+        elif isinstance(tg, ast.Subscript):
+            d = self.ev(tg.value, env)
+            if not isinstance(d, AssocDict): raise Unsupported("subscript store")
+            d.store(self.ev(tg.slice, env), v)
         elif isinstance(tg, ast.Tuple):
             v = list(v)
             for t_, x in zip(tg.elts, v): self.assign(t_, x, env)
@@ -271,7 +366,9 @@ class Interp:
             raise Unsupported(f"name {e.id}")
         if isinstance(e, ast.JoinedStr): return Opaque('fstring')
         if isinstance(e, ast.Tuple): return tuple(self.ev(x, env) for x in e.elts)
-        if isinstance(e, ast.Dict): return {self.ev(k, env): self.ev(v, env) for k, v in zip(e.keys, e.values)}
+        if isinstance(e, ast.Dict):
+            if not e.keys: return AssocDict()
+            return {self.ev(k, env): self.ev(v, env) for k, v in zip(e.keys, e.values)}
         if isinstance(e, ast.Lambda): return Closure(e, env, False)
         if isinstance(e, ast.IfExp): return self.ev(e.body if truth(self.ev(e.test, env)) else e.orelse, env)
         if isinstance(e, ast.BoolOp):
@@ -306,10 +403,25 @@ class Interp:
             if isinstance(e.slice, ast.Slice):
                 lo = self.ev(e.slice.lower, env) if e.slice.lower else None; hi = self.ev(e.slice.upper, env) if e.slice.upper else None
                 return v[lo:hi]
+            if isinstance(v, AssocDict):
+                found, x = v.lookup(self.ev(e.slice, env))
+                if not found: raise PyRaise(KeyError())
+                return x
             return v[self.ev(e.slice, env)]
         if isinstance(e, ast.Attribute):
             v = self.ev(e.value, env)
             if isinstance(v, dict) and e.attr in v: return v[e.attr]          # stub modules
+            if isinstance(v, RePattern):
+                if e.attr == 'search': return lambda s_, p=v.pat: m_re_search(p, s_)
+                if e.attr == 'match': return lambda s_, p=v.pat: m_re_search(p, s_, anchored=True)
+                if e.attr == 'fullmatch': return lambda s_, p=v.pat: m_re_search(p, s_, anchored=True, full=True)
+                if e.attr == 'split': return lambda s_, p=v.pat: m_re_split(p, s_)
+            if isinstance(v, AssocDict):
+                if e.attr == 'get':
+                    def _get(k, default=None, d=v):
+                        found, x = d.lookup(k)
+                        return x if found else default
+                    return _get
             if isinstance(v, (SStr, str)):
                 if e.attr == 'join': return lambda it, sep=v: self.join(sep, it)
                 if e.attr in STR_METHODS: return lambda s=lift(v), f=STR_METHODS[e.attr]: f(s)
@@ -345,6 +457,7 @@ def explore(interp, base_constraints, run):
         prefix = work.pop()
         s = z3.Solver(); s.add(*base_constraints)
         CTX = Ctx(s); CTX.prefix = prefix
+        if hasattr(interp, 'reset_state'): interp.reset_state()
         try:
             try: res = ('ok', run())
             except PyRaise as pr: res = ('raise', pr.exc)
